@@ -47,8 +47,60 @@ func isPrefixOfRepeat(p, token string) bool {
 	return strings.HasPrefix(rep, p)
 }
 
+// shout is a named string type with methods that formatting verbs would pick up: every helper is
+// generic over ~string and must treat such a value as its text, exactly as it treats a plain string.
+type shout string
+
+func (s shout) String() string { return "STRING(" + string(s) + ")" }
+func (s shout) Error() string  { return "ERROR(" + string(s) + ")" }
+
+// c15NamedType: differential check -- the result for the named type equals the result for string.
+func c15NamedType(r *R) {
+	for _, s := range enum.Strings([]string{"a", "B", "é", "-", "*"}, 3) {
+		t := shout(s)
+		cmp := func(fn string, got shout, want string) {
+			r.Eval(fn)
+			if string(got) != want {
+				r.Bad(fn+"/named-string-type-differs-from-string", fmt.Sprintf("%s[shout](%q,...)", fn, s), "got %q, the same call on a plain string gives %q", string(got), want)
+			}
+		}
+		for _, tok := range []string{"*", "-é", ""} {
+			cmp("Wrap", gogu.Wrap(t, tok), gogu.Wrap(s, tok))
+			cmp("WrapAllRune", gogu.WrapAllRune(t, tok), gogu.WrapAllRune(s, tok))
+			if p, _ := enum.Try(func() { cmp("Unwrap", gogu.Unwrap(t, tok), gogu.Unwrap(s, tok)) }); p {
+				continue
+			}
+			if tok != "" {
+				for _, size := range []int{0, len(s) + 1, len(s) + 4} {
+					cmp("Pad", gogu.Pad(t, size, tok), gogu.Pad(s, size, tok))
+					cmp("PadLeft", gogu.PadLeft(t, size, tok), gogu.PadLeft(s, size, tok))
+					cmp("PadRight", gogu.PadRight(t, size, tok), gogu.PadRight(s, size, tok))
+				}
+			}
+		}
+		cmp("ToLower", gogu.ToLower(t), gogu.ToLower(s))
+		cmp("ToUpper", gogu.ToUpper(t), gogu.ToUpper(s))
+		cmp("Capitalize", gogu.Capitalize(t), gogu.Capitalize(s))
+		cmp("CamelCase", gogu.CamelCase(t), gogu.CamelCase(s))
+		cmp("SnakeCase", gogu.SnakeCase(t), gogu.SnakeCase(s))
+		cmp("KebabCase", gogu.KebabCase(t), gogu.KebabCase(s))
+		cmp("ReverseStr", gogu.ReverseStr(t), gogu.ReverseStr(s))
+		for off := -2; off <= len(s)+1; off++ {
+			cmp("Substr", gogu.Substr(t, off, 2), gogu.Substr(s, off, 2))
+		}
+		for idx := 0; idx <= len(s); idx++ {
+			a, b := gogu.SplitAtIndex(t, idx), gogu.SplitAtIndex(s, idx)
+			r.Eval("SplitAtIndex")
+			if len(a) != len(b) || (len(a) == 2 && (string(a[0]) != b[0] || string(a[1]) != b[1])) {
+				r.Bad("SplitAtIndex/named-string-type-differs-from-string", fmt.Sprintf("SplitAtIndex[shout](%q,%d)", s, idx), "got %q, plain string gives %q", a, b)
+			}
+		}
+	}
+}
+
 func c15(r *R) {
 	c12ReverseStr(r) // "ReverseStr reverses runes" is part of this property's statement too
+	c15NamedType(r)
 	maxRunes := 4
 	alpha := []string{"a", "B", "é", "-", "*"}
 	if thorough {
